@@ -2,7 +2,8 @@
    This file contains only statements closed by [exact]; the proofs live in Proofs/. *)
 From Coq Require Import List Relations.
 From Coq Require Import Permutation.
-From Y0 Require Import Base.ListSet Graph.Closure Graph.MixedGraph Proofs.ClosureP Proofs.SurgeryP Proofs.DistrictsP Proofs.KahnP Proofs.KahnSoundP.
+From Y0 Require Import Base.ListSet Graph.Closure Graph.MixedGraph Graph.Paths Proofs.ClosureP Proofs.SurgeryP Proofs.DistrictsP Proofs.KahnP Proofs.KahnSoundP
+  Proofs.MSepPathP Proofs.PathsNodesP.
 Import ListNotations.
 
 Section C14.
@@ -115,7 +116,34 @@ Theorem C14_remove_in_edges_old_refuted :
   exists (g : mg nat) S v, wf g /\ In v (nodes g) /\ ~ In v (nodes (remove_in_edges_old g S)).
 Proof. exact remove_in_edges_old_refuted. Qed.
 
+(* get_nodes_in_directed_paths. On a graph the acyclicity test accepts, the result is the set of nodes on a directed walk with at least one edge from
+   a source to a target (in a DAG walks are paths; note that a source that is also a target does not count by itself). Otherwise it is the set
+   of nodes of the enumerated simple directed paths - and the enumeration is sound (every enumerated path starts at the source, ends at the target
+   and follows directed edges) and complete (every duplicate-free directed path from source to target no longer than the node list is enumerated). *)
+Theorem C14_nodes_in_directed_paths (g : mg nat) srcs tgts n :
+  In n (get_nodes_in_directed_paths g srcs tgts) <->
+  if is_acyclic g
+  then exists s t, In s srcs /\ In t tgts /\ ((In n (nodes g) /\ tc g s n /\ tc g n t) \/ (tc g s t /\ (n = s \/ n = t)))
+  else exists s t p, In s srcs /\ In t tgts /\ In p (all_simple_paths_dir (nodes g) (dir g) s t) /\ In n p.
+Proof.
+  unfold get_nodes_in_directed_paths. destruct (is_acyclic g); [apply dag_branch_spec|].
+  unfold nodes_in_directed_paths_cyclic. rewrite In_dedup, in_flat_map. split.
+  - intros [s [Hs H]]. apply in_flat_map in H. destruct H as [t [Ht H]]. apply in_concat in H. destruct H as [p [Hp Hn]]. exists s, t, p. auto.
+  - intros [s [t [p [Hs [Ht [Hp Hn]]]]]]. exists s. split; [exact Hs|]. apply in_flat_map. exists t. split; [exact Ht|]. apply in_concat. eauto.
+Qed.
+
+Theorem C14_enumerated_directed_paths_are_paths (g : mg nat) s t p : In p (all_simple_paths_dir (nodes g) (dir g) s t) ->
+  (exists rest, p = s :: rest) /\ last_is t p /\ chainA (out_adj (dir g)) p.
+Proof. exact (enumerated_paths_are_simple g s t p). Qed.
+
+Theorem C14_simple_directed_paths_are_enumerated (g : mg nat) s t p : simple_path g s t p -> length p <= S (length (nodes g)) ->
+  In p (all_simple_paths_dir (nodes g) (dir g) s t).
+Proof. exact (simple_paths_are_enumerated g s t p). Qed.
+
 Print Assumptions C14_subgraph.
+Print Assumptions C14_nodes_in_directed_paths.
+Print Assumptions C14_enumerated_directed_paths_are_paths.
+Print Assumptions C14_simple_directed_paths_are_enumerated.
 Print Assumptions C14_remove_in_edges.
 Print Assumptions C14_remove_out_edges.
 Print Assumptions C14_remove_nodes_from.
